@@ -33,6 +33,9 @@ GROUP_WITNESSES = [
     ("named group with nested named group", "(?P<g>(?P<h>s)t)", "named"),
     ("named group with nested named and plain groups", "(?P<g>(?P<h>s)(t)(?P<k>u))", "named"),
     ("named group with nested non-capturing and flagged groups", "(?P<g>s(?:t)(?i:u))", "named"),
+    ("named group whose name has non-ASCII letters", "(?P<gr\u00f6\u00dfe>st)", "named"),
+    ("named group with a non-ASCII name and a nested named group", "(?P<x_\u03b4>s(?P<h>t)u)", "named"),
+    ("named group with a long name", "(?P<a_rather_long_group_name_0123456789>st)", "named"),
     ("capturing group with nested non-capturing group", "((?:s)t)", "cap"),
     ("capturing group with nested capturing group", "((s)t)", "cap"),
     ("non-capturing group with nested named group", "(?:(?P<h>s)(u)t)", "noncap"),
@@ -104,7 +107,7 @@ def run(ctx, model):
     for label, tname, text, kind in receivers:
         spec = (label, tname, text, tname != "Assertion")
         pre = "(?P<g>x)" if needs_g(text) else ""
-        for name in (None, "nm"):
+        for name in (None, "nm", "n\u00e4m_\u03b4"):
             for form in ("method", "class"):
                 if form == "method":
                     outs, f = B.call_method_ident(model, "capture", spec, [], [name])
